@@ -1,6 +1,6 @@
 """Which rules exist, which properties are claimed, their floors and evidence texts."""
 
-RULE_MODULES = ['descent', 'null', 'live', 'gate', 'alloc', 'immobile', 'reset', 'pool', 'stale', 'layer', 'twin']
+RULE_MODULES = ['descent', 'null', 'live', 'gate', 'alloc', 'immobile', 'reset', 'pool', 'stale', 'layer', 'twin', 'listsearch', 'steps', 'segflow']
 
 # rules whose instance set legitimately differs between debug and release-like MIR
 CONFIG_DEPENDENT_RULES = {'PANICSITE'}
@@ -34,12 +34,17 @@ assumed.""",
      {'DESCENT': 4, 'LIVE': 4, 'GATE': 12, 'STALE': 20})
 
 prop('C03', """
-Static analysis (MIR/SSA). Decided clause so far: the query iterator tests expiration against the query time with
-exactly the seg-family predicate (live <=> expiration >= time): a value is yielded only on the live side and
-swap-removed only on the expired side, at the very position that was tested [LIVE]. Not decided: mask arithmetic
-(C14, C15).""",
-     ["C14, C15 (layout and mask arithmetic)"],
-     {'LIVE': 1})
+Static analysis (MIR/SSA). Decided clauses: insert computes the layout's place mask of (range.min, range.max) in that
+order, stores that very mask in every copy and pushes exactly one copy into the list selected by each of its bits, with
+no user code in the loop; a query computes the visit mask of (min, max) and feeds it to both the bit iterator and the
+de-duplication mask, passing its time through; in next() every Some(v) is dominated by the keep side of the expiry test
+of that very entry (seg-family predicate: live <=> expiration >= time) and every copy the scan steps over was tested;
+a copy is reported exactly when trailing_zeros(item.mask & visit mask) equals the place being scanned; the advanced
+position is saved before each yield, the place cursor advances only through the bit iterator with the position reset
+to 0, empty lists are skipped and the out-of-range marker is returned only on exhaustion; the iterator borrows the tree
+mutably for its whole life [SEGFLOW, LIVE]. Not decided: the mask arithmetic (C14, C15).""",
+     ["C14, C15 (layout and mask arithmetic: place and visit masks intersect iff bucket ranges overlap)"],
+     {'LIVE': 1, 'SEGFLOW': 6})
 
 prop('C04', """
 Static analysis (MIR/SSA). Decided clauses: lookup, the lookup inside delete, and the insert descent of MapTree have
@@ -74,17 +79,22 @@ buffer [LIVE, GATE].""",
 prop('C08', """
 Static analysis (MIR/SSA). Decided clause: first_index_less and first_index_less_by of MapTree and SetTree have the
 PRED_LE table (record+right on stored<probe, return current on equality, left on stored>probe, EMPTY_REF initially)
-and therefore agree with each other [DESCENT].""",
+and therefore agree with each other [DESCENT]; value_by_index / value_by_index_mut designate the value of the slot
+(position) given by the handle itself and delete_by_index applies the removal (Vec::remove for the lists) to the handle
+itself, in all four map/set collections [HANDLE].""",
      ["C02"],
-     {'DESCENT': 6})
+     {'DESCENT': 6, 'HANDLE': 12})
 
 prop('C09', """
 Static analysis (MIR/SSA nullness dataflow). Decided clause: in SetTree::index_after / index_before (and everything
 they call) every link that is dereferenced is proven != EMPTY_REF on every path, in particular the parent link
 followed by the climb, so the step at the largest / smallest value cannot read slot u32::MAX and returns the (empty)
-parent link [NULL].""",
+parent link [NULL]; role table of the steps: index_after tests the right link, descends with a helper that follows left
+links only, otherwise climbs through parent links while the current node is the right child of its parent, and returns
+the parent link it stopped at (index_before: the mirror image) [NEIGHBOUR, ENDSENT]; index_after/index_before and
+find_left_minimum/find_right_minimum are exact mirror images [TWIN].""",
      ["C02 (the tree is valid, so the links followed designate the in-order neighbours)"],
-     {'NULL': 4})
+     {'NULL': 4, 'NEIGHBOUR': 2, 'TWIN': 2})
 
 prop('C10', """
 Static analysis (MIR/SSA nullness dataflow, interprocedural by call-site meet). Decided clause: every call of an arena
@@ -102,16 +112,23 @@ Static analysis (MIR/SSA). Decided clauses so far for the expiring-key list: the
 expiration > time and may be skipped only when min_exp > time [LIVE]; every binary search / read of the buffer is
 dominated by the purge called with the operation's own time with no insertion in between, and min_exp is maintained
 as a lower bound of the stored expirations (lowered before each insert, recomputed as the minimum over kept entries
-after retain, written nowhere else) [GATE].""",
+after retain, written nowhere else) [GATE]; all 15 binary searches of the three lists have std's comparator
+orientation (element relative to probe) and a post-processing that, evaluated symbolically over Ok(0)/Ok(i)/Err(0)/
+Err(i), equals the EXACT / PRED_LE / PRED_LT / INSERT result table of the reference semantics [LISTSEARCH]; the set
+list's neighbour steps return position +-1 inside the sequence and EMPTY_REF exactly at the last / first position
+[ENDSENT]; handles are positions passed through unchanged to get_unchecked / Vec::remove [HANDLE].""",
      ["binary_search_by* / retain contracts of std"],
-     {'LIVE': 2, 'GATE': 8})
+     {'LIVE': 2, 'GATE': 8, 'LISTSEARCH': 30, 'ENDSENT': 4, 'HANDLE': 6})
 
 prop('C16', """
-Static analysis (MIR/SSA). Decided clause so far: on the expired side of the expiry test (expiration < time) the
-scanned copy is physically removed (swap_remove at the tested position) and never yielded; on the live side it is
-never removed [LIVE].""",
+Static analysis (MIR/SSA). Decided clauses: on the expired side of the expiry test (expiration < time) the scanned copy
+is physically removed (swap_remove at the tested position) and never yielded, and on the live side it is never removed
+[LIVE]; after the removal the cursor is not advanced, control returns to the loop guard, and the guard re-reads the
+list length, so the element moved into the freed slot is examined too; every copy the scan steps over has passed the
+expiry test (no path advances the cursor around it); the scan of a selected list runs to the end of the list, and
+find_next skips a selected place only when its list is empty [SEGFLOW].""",
      ["C15: the whole-domain visit mask selects every place"],
-     {'LIVE': 1})
+     {'LIVE': 1, 'SEGFLOW': 5})
 
 prop('C20', """
 Static analysis (MIR/SSA; typestate reading of the property: a stored key may be shown to user comparison code only
